@@ -318,6 +318,7 @@ type objState struct {
 	present bool
 	body    []byte
 	ctype   string
+	latin   string // a metadata value that is not valid UTF-8
 	step    string
 }
 
@@ -442,7 +443,7 @@ func runCrashCase(r *rep.Reporter, cc crashCase) {
 			case 1:
 				size = rng.Intn(3)
 			}
-			next = objState{present: true, body: gen.Body(rng, size, gen.PatRandom, uint32(step)), ctype: fmt.Sprintf("text/x-step-%d", step), step: fmt.Sprint(step)}
+			next = objState{present: true, body: gen.Body(rng, size, gen.PatRandom, uint32(step)), ctype: fmt.Sprintf("text/x-step-%d", step), step: fmt.Sprint(step), latin: fmt.Sprintf("caf\xe9 %d", step)}
 		}
 		inflightKey, inflightNew = k, next
 		var resp *drv.Resp
@@ -452,7 +453,7 @@ func runCrashCase(r *rep.Reporter, cc crashCase) {
 			resp, derr = cl.do("DELETE", p1.url(bucket, k), nil, nil, 0)
 		} else {
 			trace = append(trace, fmt.Sprintf("PUT %s (%d bytes)", k, len(next.body)))
-			hdr := http.Header{"Content-Type": {next.ctype}, "X-Amz-Meta-Step": {next.step}}
+			hdr := http.Header{"Content-Type": {next.ctype}, "X-Amz-Meta-Step": {next.step}, "X-Amz-Meta-Latin": {next.latin}}
 			if cc.mode == "mid-body" && ackCount >= cc.killAt && len(next.body) > 2 {
 				sb := &slowBody{data: next.body, half: make(chan struct{}), release: make(chan struct{})}
 				done := make(chan struct{})
@@ -541,6 +542,17 @@ func runCrashCase(r *rep.Reporter, cc crashCase) {
 		fail("bucket-lost", fmt.Sprintf("bucket %s is not listed after restart: %v", bucket, br.Names()), wit())
 		return
 	}
+	// in every second case the keys are read before anything lists the bucket: what a key's
+	// first access after the restart answers must not depend on a listing having passed first
+	early := map[string]*drv.Resp{}
+	if (cc.seed+cc.nth+cc.killAt)%2 == 1 {
+		for _, k := range keys {
+			if g, err := cl.do("GET", p2.url(bucket, k), nil, nil, 0); err == nil {
+				early[k] = g
+			}
+		}
+		r.Count("restarts_read_before_the_first_listing", 1)
+	}
 	for _, v2 := range []string{"", "?list-type=2", "?delimiter=%2F"} {
 		l, err := cl.do("GET", p2.url(bucket, "")+v2, nil, nil, 0)
 		if err != nil || l.Status != 200 {
@@ -561,16 +573,19 @@ func runCrashCase(r *rep.Reporter, cc crashCase) {
 			fail("get-fails-after-restart", fmt.Sprintf("GET %s: %v", k, err), wit())
 			return
 		}
+		if eg := early[k]; eg != nil {
+			g = eg // the answer of the key's first access
+		}
 		matches := func(st objState) bool {
 			if !st.present {
 				_, isListed := listed[k]
 				return g.Status == 404 && !isListed
 			}
 			return g.Status == 200 && bytes.Equal(g.Body, st.body) && g.ETag() == drv.QuotedMD5(st.body) &&
-				g.Header.Get("Content-Type") == st.ctype && g.Header.Get("X-Amz-Meta-Step") == st.step &&
+				g.Header.Get("Content-Type") == st.ctype && g.Header.Get("X-Amz-Meta-Step") == st.step && (st.latin == "" || g.Header.Get("X-Amz-Meta-Latin") == st.latin) &&
 				listed[k] == fmt.Sprintf("%s %d", drv.QuotedMD5(st.body), len(st.body))
 		}
-		got := fmt.Sprintf("GET %d, %d bytes md5 %s etag %s type %q step %q, listed as %q", g.Status, len(g.Body), drv.MD5Hex(g.Body), g.ETag(), g.Header.Get("Content-Type"), g.Header.Get("X-Amz-Meta-Step"), listed[k])
+		got := fmt.Sprintf("GET %d, %d bytes md5 %s etag %s type %q step %q latin %q, listed as %q", g.Status, len(g.Body), drv.MD5Hex(g.Body), g.ETag(), g.Header.Get("Content-Type"), g.Header.Get("X-Amz-Meta-Step"), g.Header.Get("X-Amz-Meta-Latin"), listed[k])
 		if k == inflightKey {
 			r.Count("in_flight_keys_audited", 1)
 			if !matches(acked[k]) && !matches(inflightNew) {
